@@ -208,7 +208,45 @@ pub fn oracle(tier: &str, seed: u64) -> (u64, Vec<Finding>) {
                 _ => {}
             }
         }
-        if out.len() > 20 { break; }
+        // Matrix.Vector / Vector.Matrix / Vector.Vector: conformable lengths give the definition, every other length panics
+        if it % 4 == 0 {
+            let (rr, cc) = (1 + r.below(5) as usize, 1 + r.below(5) as usize);
+            let md = ints(&mut r, rr * cc);
+            let mm = Matrix::new(md.clone(), rr as i32, cc as i32);
+            for t in [false, true] {
+                let inner = if t { rr } else { cc }; let outer = if t { cc } else { rr };
+                for vl in [inner, inner + 1, 2 * inner, 3 * inner, inner.saturating_sub(1).max(1)] {
+                    let v = ints(&mut r, vl); let vv = Vector::new(v.clone());
+                    tried += 2;
+                    let inp = format!("matrix={}x{} {} vector={} transpose_matrix={}", rr, cc, json_floats(&md), json_floats(&v), t);
+                    // M.v
+                    let got = catch(|| if t { mm.t_dot(&vv).v } else { mm.dot(&vv).v });
+                    let want: Option<Vec<f64>> = if vl == inner { Some((0..outer).map(|i| (0..inner).map(|k| (if t { md[k * cc + i] } else { md[i * cc + k] }) * v[k]).sum::<f64>() + 0.0).collect()) } else { None };
+                    match (&want, &got) {
+                        (None, Ok(g)) => out.push(Finding { class: "Dot-MV:nonconformable-accepted".into(), what: format!("Matrix.Vector product returned {:?} for a vector of length {} against inner dimension {} (must panic)", g, vl, inner), input: inp.clone() }),
+                        (Some(w), Ok(g)) => if g != w { out.push(Finding { class: "Dot-MV:wrong".into(), what: format!("Matrix.Vector product returned {:?}, definition gives {:?}", g, w), input: inp.clone() }) },
+                        (Some(_), Err(e)) => out.push(Finding { class: "Dot-MV:conformable-panics".into(), what: format!("panicked: {}", e), input: inp.clone() }),
+                        _ => {}
+                    }
+                    // v.M  (vector as a row): inner dimension is the matrix's row count (or column count when the matrix is transposed)
+                    let inner2 = if t { cc } else { rr }; let outer2 = if t { rr } else { cc };
+                    let got = catch(|| if t { vv.dot_t(&mm).v } else { vv.dot(&mm).v });
+                    let want: Option<Vec<f64>> = if vl == inner2 { Some((0..outer2).map(|j| (0..inner2).map(|k| v[k] * (if t { md[j * cc + k] } else { md[k * cc + j] })).sum::<f64>() + 0.0).collect()) } else { None };
+                    match (&want, &got) {
+                        (None, Ok(g)) => out.push(Finding { class: "Dot-VM:nonconformable-accepted".into(), what: format!("Vector.Matrix product returned {:?} for a vector of length {} against inner dimension {} (must panic)", g, vl, inner2), input: inp.clone() }),
+                        (Some(w), Ok(g)) => if g != w { out.push(Finding { class: "Dot-VM:wrong".into(), what: format!("Vector.Matrix product returned {:?}, definition gives {:?}", g, w), input: inp.clone() }) },
+                        (Some(_), Err(e)) => out.push(Finding { class: "Dot-VM:conformable-panics".into(), what: format!("panicked: {}", e), input: inp.clone() }),
+                        _ => {}
+                    }
+                }
+            }
+            let (a1, b1) = (ints(&mut r, rr), ints(&mut r, cc));
+            tried += 1;
+            let got = catch(|| Vector::new(a1.clone()).dot(&Vector::new(b1.clone())));
+            if rr != cc && got.is_ok() { out.push(Finding { class: "Dot-VV:nonconformable-accepted".into(), what: "Vector.Vector product of different lengths returned a value".into(), input: format!("{} . {}", json_floats(&a1), json_floats(&b1)) }); }
+            if rr == cc { let w: f64 = a1.iter().zip(&b1).map(|(x, y)| x * y).sum::<f64>() + 0.0; if got != Ok(w) { out.push(Finding { class: "Dot-VV:wrong".into(), what: format!("got {:?}, definition {:e}", got, w), input: format!("{} . {}", json_floats(&a1), json_floats(&b1)) }); } }
+        }
+        if out.len() > 40 { break; }
     }
     (tried, out)
 }
